@@ -28,9 +28,14 @@ def run(repo, chk):
     chk.rule('C14.F3', 'const substitution guard: only const / global-scope variables with primitive initialisers; substituted literals are not shrinkable')
     chk.rule('C14.W1', 'word-size non-interference: non-homomorphic folds (/ % < <= > >= == != and byte/bool casts) must take the word size as input')
     chk.rule('C14.W2', 'literal narrowing: compile-time int->byte keeps only the low byte, int->bool is non-zero, as the run-time casts do')
-    from . import c09, c02
+    from . import c09, c02, c16, c05
     c09.run(repo, Remap(chk, {'C09.M1': 'C14.F1'}))
     c02.run(repo, Remap(chk, {'C02.T6': 'C14.F2'}))
+    chk.rule('C14.F4', 'constant conditions: a loop whose condition folds to a constant is treated exactly like the run-time loop '
+                       '(only a literally-true condition without break never completes) - shared with C16.E1/E2')
+    c16.run(repo, Remap(chk, {'C16.E1': 'C14.F4', 'C16.E2': 'C14.F4'}))
+    chk.rule('C14.F5', 'a constant operand never removes a run-time check: x / <constant> keeps the division guard - shared with C05.G4')
+    c05.run(repo, Remap(chk, {'C05.G4': 'C14.F5'}))
     it = Interp(repo)
     ns = it.load('hidc/ast/__init__.py')
     lex = it.load('hidc/lexer/__init__.py')
